@@ -20,6 +20,14 @@ C = {
    text='For every multi-currency zoo topology the solver shows for all positive, time-varying exchange rates and all flows: receiver credited amount*XR_src/XR_tgt, sender debited, numeraire-valued sum of FX net transactions zero, numeraire position zero with paired flows; plus the enumerated outcome that the same topologies without ExternalSector raise LogicError.',
    note='Numeraire rate kept as emitted (freeing it is unsound). Exchange rates assumed > 0.'),
 }
+C['C08'] = dict(level=TV, engine='E1', design='§2 C08',
+   technique='SMT equivalence (per-equation identity, else two-sided entailment) of the systems emitted by permuted builds',
+   text='Every zoo topology is built with the real constructors in the canonical order and in every order of a bounded family of dependency-respecting permutations; the emitted systems must have identical variable/lag/exogenous/initial-condition sets and the solver shows each pair of systems equivalent over all real valuations.',
+   note='Permutation family bounded (listed in evidence); post-declaration method calls keep canonical order; countries keep relative order.')
+C['C09'] = dict(level=TV, engine='E1+E2', design='§2 C09',
+   technique='SMT one-period inductive equivalence of emitted SIM/SIMEX1/PC systems with the book recursion (parameters symbolic); symbolic execution of the hand-coded iterative SIM',
+   text='For SIM, SIMEX1 and PC built by the bundled builders, the emitted equations together with the book recursion (written independently) entail equality of Y, T, YD, C, V, B, H for all admissible parameters, G, r and lagged stocks (goal-split unsat queries); the real ModelSIMiterative.RunStep is executed symbolically over all paths for G in [0,100], H in [-100,100] on a parameter grid with the closed-form error bound as post-condition.',
+   note='Admissibility assumptions listed in evidence; parameter transport (%0.4f) checked concretely; numerical series agreement is C02 + this.')
 PENDING = {}
 ALL = ['C%02d' % i for i in range(1, 21)]
 checks = []
